@@ -45,7 +45,12 @@ class SweepStream(Stream):
                 elif r < 0.45:
                     kw.append([k, [paramlib.rq(rng)], "len1"])
                 else:
-                    kw.append([k, [paramlib.rq(rng) for _ in range(ns)], "array"])
+                    vs = [paramlib.rq(rng) for _ in range(ns)]
+                    if ns >= 3 and rng.random() < 0.35:
+                        vs[-1] = vs[0]        # a closed ramp: the sweep ends where it started, the interior differs
+                        if vs[1] == vs[0]:
+                            vs[1] = vs[0] + 0.25
+                    kw.append([k, vs, "array"])
             if rng.random() < 0.12:     # malformed: a second, different length > 1
                 kw.append([8, [paramlib.rq(rng) for _ in range(ns + 1)], "array"])
             out.append({"tree": t, "kw": kw})
